@@ -142,3 +142,14 @@ Theorem C05_getReference_answers_own_request : forall (evs : list gr_event) r a,
             (forall f', In (r, f') (g_log (gr_run evs)) -> f' = f).
 Proof. exact gr_answers_match. Qed.
 Print Assumptions C05_getReference_answers_own_request.
+
+(* the same with several lookups pending at once and connections -- also inbound ones from the Tubs being dialled
+   ("crossed connections") -- completing, failing and going away in every order: a lookup for X is only ever answered with a
+   Broker whose transport's leaf certificate hashes to X *)
+Theorem C05_pending_lookups_answered_by_proven_connections :
+  forall (cert : Type) (tubid_of : cert -> list Z) my (evs : list (tevent cert)),
+  table_ok cert tubid_of my (t_tab cert (trun cert tubid_of my evs)) /\
+  (forall n x c, In (n, x, Some c) (t_ans cert (trun cert tubid_of my evs)) ->
+     (conn_loop cert c = true /\ x = my) \/ (conn_loop cert c = false /\ proven cert tubid_of (conn_cert cert c) x)).
+Proof. exact tub_answers_proven. Qed.
+Print Assumptions C05_pending_lookups_answered_by_proven_connections.
